@@ -66,18 +66,22 @@ func logPath(dir string) string {
 	return filepath.Join(dir, LogDir)
 }
 
-func New(cfg Config) (*DiskKV, error) {
-	if err := cfg.validate(); err != nil {
-		return nil, err
-	}
+func openLog(cfg Config) (*wal.Log, error) {
 	// store log to wal/ subdirectory to support future snapshot
-	l, err := wal.Open(logPath(cfg.DataDir), &wal.Options{
+	return wal.Open(logPath(cfg.DataDir), &wal.Options{
 		SegmentSize:      2 * 1024 * 1024, // 2MB
 		SegmentCacheSize: 4,               // 8MB
 		LogFormat:        wal.Binary,
 		NoSync:           true,
 		NoCopy:           true,
 	})
+}
+
+func New(cfg Config) (*DiskKV, error) {
+	if err := cfg.validate(); err != nil {
+		return nil, err
+	}
+	l, err := openLog(cfg)
 	if err != nil {
 		return nil, fmt.Errorf("error opening log: %w", err)
 	}
